@@ -16,7 +16,11 @@ sp = VerusUnit("c02_speed", "c02_speed", rlimit=30)
 cw = KaniUnit("c02_cost_service_wit", "routee-compass", modules=[dict(file="routee-compass/src/app/compass/config/cost_model/cost_model_service.rs", src="c02_cost_service_wit.rs")], harnesses=[])
 cw.native_witnesses = ["c02_wit_query_rates_and_weights_are_the_ones_in_force"]
 cb = VerusUnit("c02_cost_build", "c02_cost_build", rlimit=30, paired_kani=(cw, []))
-UNITS = [al, cm, sp, rc, cb, cw]
+rw = KaniUnit("c07_rate_wit", CORE, modules=[dict(file=CORE + "/src/model/cost/vehicle/vehicle_cost_rate.rs", src="c07_rate_wit.rs")], harnesses=[])
+rw.native_witnesses = ["c07_wit_combined_rate_applies_members_in_order"]
+rt = VerusUnit("c07_rate", "c07_rate", rlimit=30, paired_kani=(rw, []))
+eo = VerusUnit("c01_edge_oriented", "c01_edge_oriented", rlimit=60, clauses=r"callers\.[01]")
+UNITS = [al, cm, sp, rc, cb, rt, eo, cw, rw]
 EXPLANATION = ("NOT optimality. Decided: the relaxation mechanism of run_a_star as contracts on the verbatim driver (Verus): a label is replaced only by a strictly smaller cost-so-far equal to the near vertex' "
                "label plus the edge's total cost; the vertex is re-queued with f = g + weighted estimate and its queue priority is never worse than that f (invariant Q: catches push_increase/push_decrease "
                "mix-ups and flipped comparisons); advance_search hands out a queued vertex of least f-score (assumed contract of the priority_queue crate + ReverseCost's order reversal, proved by Kani); "
@@ -26,7 +30,9 @@ EXPLANATION = ("NOT optimality. Decided: the relaxation mechanism of run_a_star 
                "estimate is never above the time at any table speed, and along any route the summed edge times are >= the estimate for the summed length (induction); "
                "'the weights and rates in force for that query, whether they come from the configuration or from the query itself' (unit c02_cost_build, Verus on the verbatim CostModelService::build and CostModel::new, any query, "
                "configuration and state model): the cost model built for a query costs the feature at EVERY state-model slot with the weight, vehicle rate and network rate of THAT feature's name (absent: the default), in slot order, "
-               "the weights / vehicle rates / aggregation being the query's own where it carries them and the configured ones otherwise; an unreadable cost section is an error of that query, never a silent fallback; a weight for an unknown feature is refused unless told to ignore it")
+               "the weights / vehicle rates / aggregation being the query's own where it carries them and the configured ones otherwise; an unreadable cost section is an error of that query, never a silent fallback; a weight for an unknown feature is refused unless told to ignore it; "
+               "every vehicle rate (unit c07_rate, see C07): zero, the value, value x factor, value + offset, or -- combined -- the member rates applied ONE AFTER THE OTHER in order; "
+               "run_a_star_edge_oriented (unit c01_edge_oriented) runs its inner searches in the caller's direction with the caller's WEIGHT FACTOR (Dijkstra is factor 0: dropping it would silently run A*) -- an obligation at every call site")
 NOT_DECIDED = ("least total cost itself (global Dijkstra/A* argument); admissibility of the great-circle heuristic (transcendental functions, premise about the network); "
                "SearchAlgorithm dispatch beyond unit c01_dispatch (Dijkstra = weight factor 0, query override); parsing of the query's cost section (serde_json: a deterministic read per key and type); that the great-circle length is a lower bound of the network length (data premise)")
 ASSUMPTIONS = ["HashMap<String, V> as an abstract map from names to values; StateModel::indexed_iter yields (slot, name) in slot order (C11); Clone returns an equal value", "priority_queue crate: push/push_increase/pop semantics as stated in the shim", "A-REAL (costs as extended reals)"]
